@@ -14,6 +14,7 @@ contents must match, and a stuck end must really leave run() blocked.
 The parse itself: "the breakpoint hits of the parse" are its rule entries; the sequence a listener on the real VM is
 told about is validated against the entry log of the TLA+ semantics (Trace_Entries) on enumerated and random grammars."""
 import json
+from concurrent.futures import ThreadPoolExecutor
 import os
 import re
 from vlib import *
@@ -161,6 +162,13 @@ ANY_SCRIPTS = [
 ]
 
 
+SESSION_TEXTS = [
+    ('bom = { "\\u{FEFF}" }\nitem = { ASCII_ALPHA }\ntop = { bom? ~ item+ ~ EOI }\n', ["\ufeffabc", "abc", "a\ufeffb", "\ufeff", "", "ab1", "\ufeff\ufeffa"]),
+    ('WHITESPACE = _{ " " | NEWLINE }\nw = { ASCII_ALPHA+ }\ntop = { SOI ~ w* ~ EOI }\n', ["ab cd", "ab\r\ncd", "\ufeffab", "ab \u00e9", "a\nb\rc", ""]),
+    ('q = { PUSH("a" | "b") ~ "-" ~ POP }\ntop = { q ~ ("," ~ q)* }\n', ["a-a,b-b", "a-b", "b-b,", "a-a,b-a"]),
+    ('e = { "\\u{E9}" | ANY }\ntop = { (!"." ~ e)* ~ "." }\n', ["\u00e9x.", "\u00e9", ".", "\ufeff."]),
+]
+
 SILENT_TOP = 'a = { "x" }\nb = { "y" }\ntop = _{ a ~ b ~ a ~ b? }\n'
 
 
@@ -235,6 +243,48 @@ def _entries(ctx, quick):
         for k in tot:
             tot[k] += s[k]
         batches.append(out)
+    # hand-written session texts: what a FILE can hold that the enumerated alphabets do not (a leading byte order mark,
+    # CRLF, non-ASCII text), a stack grammar, built-ins entered
+    hand = os.path.join(ctx.work, "hand_cases.ndjson")
+    with open(hand, "w") as f:
+        for (text, inputs) in SESSION_TEXTS:
+            starts = [l.split("=")[0].strip() for l in text.split("\n") if "=" in l and not l.startswith(("WHITESPACE", "COMMENT"))]
+            f.write(json.dumps({"text": text, "cases": [{"start": st, "inp": [ord(ch) for ch in i], "exp": {"k": "unknown"}} for st in starts for i in inputs]}) + "\n")
+    out = os.path.join(ctx.work, "ent_hand.ndjson")
+    s = run_json([vh, "entries-emit", "--cases", hand, "--out", out], timeout=6000)
+    for k in tot:
+        tot[k] += s[k]
+    batches.append(out)
+    # whole sessions on the real DebuggerContext, grammar and input loaded from files: the events must be those entries
+    vd = cargo_build(pkg="vdbg")
+    sess = {"cases": 0, "events": 0, "skipped": 0}
+    def one_session(b):
+        # an even sample of the batch (a session costs a thread and a park / unpark round trip per event): at most
+        # ~300 grammars (quick) / ~1500 (thorough) with at most 24 cases each; the hand-written batch is run whole
+        lines = nl_lines(b)
+        keep = 300 if quick else 1500
+        sample = lines[::max(1, len(lines) // keep)]
+        sb = b + ".sess"
+        with open(sb, "w") as f:
+            for l in sample:
+                rec = json.loads(l)
+                rec["cases"] = rec["cases"][::max(1, len(rec["cases"]) // 24)]
+                f.write(json.dumps(rec) + "\n")
+        try:
+            return run_json([vd, "sessions", "--in", sb, "--dir", os.path.join(ctx.work, "sess_" + os.path.basename(b))], timeout=6000)
+        finally:
+            os.remove(sb)
+    with ThreadPoolExecutor(max_workers=8) as ex:
+        for (b, r) in zip(batches, ex.map(one_session, batches)):
+            for k in sess:
+                sess[k] += r[k]
+            for m in r["mismatches"]:
+                ctx.violation({"kind": "session", "spec": "Trace_Entries/PegSemantics through DebuggerContext sessions over files", **m,
+                               "input": "".join(chr(c) for c in m.get("inp", []))})
+            if r["mismatch_count"] > len(r["mismatches"]):
+                ctx.violations += r["mismatch_count"] - len(r["mismatches"])
+    ctx.cov["engines"].append({"name": "vdbg sessions", "role": "stepping sessions (load_grammar / load_input from files, a breakpoint on every name, "
+                               "cont after every event): events = the entries told to a plain VM listener, then Eof / Error", **sess})
     parts = []
     for b in batches:
         lines = nl_lines(b)
@@ -309,6 +359,23 @@ def _confirm(ctx, vd, cap, name, d):
 def replay(ctx, path):
     vd = cargo_build(pkg="vdbg")
     body = json.load(open(path))
+    if body.get("kind") in ("session", "trace"):
+        vh = cargo_build()
+        lf = os.path.join(ctx.work, "one.ndjson")
+        open(lf, "w").write(json.dumps({"text": body["grammar"], "cases": [{"start": body["start"], "inp": body["inp"], "exp": {"k": "unknown"}}]}) + "\n")
+        out = os.path.join(ctx.work, "one_ent.ndjson")
+        run_json([vh, "entries-emit", "--cases", lf, "--out", out])
+        bad = False
+        if body["kind"] == "session":
+            r = run_json([vd, "sessions", "--in", out, "--dir", os.path.join(ctx.work, "sess_one")])
+            bad = r["mismatch_count"] > 0
+        else:
+            bad = any(rej for (_, _, rej, _) in validate_batches(ctx, "Trace_Entries", [out], jobs=1))
+        if bad:
+            print("VIOLATION property=C17 replay=%s" % path)
+            return 1
+        print("replay: the events are the rule entries of the parse on the current tree")
+        return 0
     bf = os.path.join(ctx.work, "b.ndjson")
     open(bf, "w").write(json.dumps(body["behaviour"]) + "\n")
     out = os.path.join(ctx.work, "r.ndjson")
